@@ -1,7 +1,8 @@
 //! Verification hooks (cargo feature `verif`, off by default).
 //!
 //! Add-only: re-exports the crate-private module trees as plain paths so that an external
-//! harness can call the functions they contain.  Nothing here changes behaviour.
+//! harness can call the functions they contain.  Nothing here changes behaviour, with one
+//! exception that needs an environment variable to be set: `prover_fault`.
 
 pub use crate::breaking::fol as breaking_fol;
 pub use crate::command_line::arguments;
@@ -12,3 +13,19 @@ pub use crate::verifying::outline;
 pub use crate::verifying::problem;
 pub use crate::verifying::prover;
 pub use crate::verifying::task;
+
+/// Fault injection for the harness: a prover worker that dies before it reports back.
+/// `ANTHEM_VERIF_PROVER_PANIC_BEFORE` / `ANTHEM_VERIF_PROVER_PANIC_AFTER` hold a comma-separated
+/// list of problem names; `Vampire::prove` panics for these problems before the prover is started
+/// / after its output has been collected.  Without the variables nothing happens.
+pub fn prover_fault(stage: &str, problem: &str) {
+    let variable = match stage {
+        "before" => "ANTHEM_VERIF_PROVER_PANIC_BEFORE",
+        _ => "ANTHEM_VERIF_PROVER_PANIC_AFTER",
+    };
+    if let Ok(names) = std::env::var(variable) {
+        if names.split(',').any(|name| name == problem) {
+            panic!("verif hook: the prover worker of problem `{problem}` dies {stage} proving");
+        }
+    }
+}
